@@ -264,7 +264,20 @@ def check_complex_glue(facts, rep):
         x = re.sub(r'#i\d+:\d+\.\d+', '', x)
         x = re.sub(r'get\(arg1\.\^self\.summands, (arg\d)\)', r'index(arg1.^self, \1)', x)
         x = re.sub(r'arg1\.\^(reducer|red)\b', 'arg1.^r', x)
+        if EQUIV['index_is_get']:
+            x = re.sub(r'\bget\(arg1, ', 'index(arg1, ', x)
+        if EQUIV['d_is_d_map']:
+            x = re.sub(r'call\((?:deref\()?arg1\.d_map\)?, \((.*?), (gen\(.*\))\)\)', r'd(arg1, \1, \2)', x)
         return x
+    # self[i] is self.get(i) and self.d(i, z) is (self.d_map)(i, z): read from the two one-line bodies, not assumed
+    EQUIV = {'index_is_get': False, 'd_is_d_map': False}
+    for k_, b_ in facts.bodies.items():
+        if 'ChainComplexBase<I, X, R> as std::ops::Index<I>>::index' in k_:
+            rr_ = {dk(p.ret) for p in SymEx(b_, inline=False).run() if p.end == 'return'}
+            EQUIV['index_is_get'] = rr_ == {'get(arg1, arg2)'}
+        if k_.endswith('ChainComplexBase<I, X, R> as abst::complex::ChainComplexTrait<I>>::d'):
+            rr_ = {dk(p.ret) for p in SymEx(b_, inline=False).run() if p.end == 'return'}
+            EQUIV['d_is_d_map'] = rr_ in ({'call(deref(arg1.d_map), (arg2, arg3))'}, {'call(arg1.d_map, (arg2, arg3))'})
 
     def rets(name):
         b = facts.bodies.get(C + name)
